@@ -47,7 +47,8 @@ func obsAdd(parts ...interface{}) {
 }
 
 type digestFile struct {
-	m map[int]uint64
+	m   map[int]uint64
+	tag map[int]string
 }
 
 func (d *digestFile) add(id int, dg uint64) {
@@ -55,6 +56,14 @@ func (d *digestFile) add(id int, dg uint64) {
 		d.m = map[int]uint64{}
 	}
 	d.m[id] = dg
+}
+
+// addTag attaches a class tag of the case (from the specification) to its digest line
+func (d *digestFile) addTag(id int, tag string) {
+	if d.tag == nil {
+		d.tag = map[int]string{}
+	}
+	d.tag[id] = tag
 }
 
 func (d *digestFile) write(path string) {
@@ -74,6 +83,10 @@ func (d *digestFile) write(path string) {
 	}
 	sort.Ints(ids)
 	for _, id := range ids {
-		fmt.Fprintf(w, "%d %016x\n", id, d.m[id])
+		tag := d.tag[id]
+		if tag == "" {
+			tag = "-"
+		}
+		fmt.Fprintf(w, "%d %016x %s\n", id, d.m[id], tag)
 	}
 }
